@@ -61,11 +61,16 @@ def family(op):
 BITS64 = False
 FUZZ = False
 PAR = False
+CURRENT = None
 BSI_PARALLEL = {'BParOr', 'BClear', 'BRetainSet', 'BSum', 'BCompare', 'BBatchEqual', 'BBatchEqualValues', 'BMinMax', 'BTranspose', 'BTransposeCounts'}
 
 
 def attribute(v):
     """Which property a recorded deviation belongs to (None = latent/structural, not a verdict)."""
+    if v['clause'] == 'process-crash':
+        # a fatal runtime error (memory corruption is not recoverable like a panic) on a reproducible trace: no property's
+        # promise about results survives it; it is reported by the check whose traces produce it
+        return CURRENT
     p = attribute32(v)
     if PAR and p in ('C19', 'C20') and v['op'] in BSI_PARALLEL:
         return p + '+C12'   # in C12's race-detector runs a wrong answer of a goroutine-parallel BSI path also counts for C12
@@ -137,6 +142,8 @@ def signature(prop, v):
         sig['detail'] = d
     if v['clause'] == 'result' and isinstance(d, list):
         sig['detail'] = ','.join(sorted(str(x) for x in d))
+    if v['clause'] == 'process-crash' and isinstance(d, dict):
+        sig['detail'] = d.get('message')
     if v['op'].startswith('B') and isinstance(d, dict) and 'exp' in d:
         sig['negative_values'] = any(x < 0 for x in d['exp'].get('v', []))
     if v['op'].startswith('B') and isinstance(d, dict) and 'clauses' in d:
@@ -264,6 +271,7 @@ def c11(tier):
              'sample': 0.04 if q else 0.8},
             {'kind': 'drive', 'profile': 'aggregate', 'traces': 160 if q else 3000, 'steps': 40},
             {'kind': 'drive', 'profile': 'aggsparse', 'traces': 300 if q else 6000, 'steps': 0},
+            {'kind': 'drive', 'profile': 'aggkernel', 'traces': 400 if q else 8000, 'steps': 0},
             {'kind': 'replay', 'model': par_models()[0], 'kinds': ['chunks'], 'sample': 1.0, 'shards': 4},
         ],
     }
@@ -294,6 +302,9 @@ def c07(tier):
              'kinds': ['chunky', 'keyspread', 'chunky', 'threshold'], 'sample': 0.25 if q else 0.5, 'extra': ['-keeprcp']},
             {'kind': 'drive', 'profile': 'sharing', 'traces': 400 if q else 6000, 'steps': 60, 'extra': ['-minkeys', '3', '-cow']},
             {'kind': 'drive', 'profile': 'sharing', 'traces': 160 if q else 2000, 'steps': 60},
+            {'kind': 'drive', 'profile': 'aggkernel', 'traces': 400 if q else 8000, 'steps': 0},
+            {'kind': 'drive', 'profile': 'aggsparse', 'traces': 160 if q else 3000, 'steps': 0},
+            {'kind': 'drive', 'profile': 'kernel', 'traces': 300 if q else 6000, 'steps': 0},
         ],
     }
 
